@@ -3,7 +3,7 @@ from props import lifecycle
 
 
 def check(run):
-    return lifecycle.check(run, "C09", ["general", "manyconns"])
+    return lifecycle.check(run, "C09", ["general", "manyconns", "outliving", "long"])
 
 
 def replay(run, path):
